@@ -1,6 +1,6 @@
 (* Property theorems of the Svc cluster. Nothing but statements, [exact], and
    Print Assumptions. *)
-From FC Require Import Svc.Model Svc.SeqlockProg Svc.Main Svc.Proofs42.
+From FC Require Import Svc.Model Svc.SeqlockProg Svc.Main Svc.Proofs42 Svc.Proofs41.
 Open Scope N_scope.
 
 (* C42.  [write_prog] / [read_prog] are the step lists translated from seqlock.rs.
@@ -54,3 +54,70 @@ Theorem two_writers_read_returns_complete_value_refuted :
     ~ In (e_val e) ([0; 0] :: concat [[[1; 1]]; [[2; 2]]]).
 Proof. exact two_writers_torn_not_complete. Qed.
 Print Assumptions two_writers_read_returns_complete_value_refuted.
+
+(* ------------------------------------------------------------------------------------ *)
+(* C41.  Model41.v: the watch cell of ServiceRunner under EVERY interleaving [ops] of the
+   atomic steps  OStart / OStop (client calls), OBg (one step of the background task of
+   initialize_loop/run/run_task/shutdown_task), OGrant (a scripted into_task / run / shutdown
+   call of the user task is allowed to return), OSpawn k / OAw i (an await_stop or
+   await_start_or_stop future is created / takes one step), for every script of task outcomes
+   (into_task: ok/err/panic; run: continue/stop/error/panic/wait-while-started, any list;
+   shutdown: ok/err/panic). *)
+Close Scope N_scope.
+Open Scope nat_scope.
+
+(* the state only moves forward: NotStarted < Starting < Started < Stopping < {Stopped,
+   StoppedWithError}; between any two moments of any execution it is unchanged or later *)
+Theorem state_forward_only : forall io rs so ops1 ops2,
+  let s1 := run41 (init_sys io rs so) ops1 in
+  let s2 := run41 (init_sys io rs so) (ops1 ++ ops2) in
+  cell s1 = cell s2 \/ srank (cell s1) < srank (cell s2).
+Proof. exact state_forward_prop. Qed.
+Print Assumptions state_forward_only.
+
+(* a stopped service never runs again: from a reachable state whose cell is Stopped or
+   StoppedWithError, no continuation changes the cell or calls into_task / run / shutdown *)
+Theorem stopped_never_runs : forall s ops, reachable s -> stopped (cell s) = true ->
+  cell (run41 s ops) = cell s /\ n_into (run41 s ops) = n_into s /\
+  n_run (run41 s ops) = n_run s /\ n_shut (run41 s ops) = n_shut s.
+Proof. exact stopped_never_runs_all. Qed.
+Print Assumptions stopped_never_runs.
+
+(* shutdown (and into_task) are invoked at most once in every execution *)
+Theorem shutdown_at_most_once : forall io rs so ops,
+  n_shut (run41 (init_sys io rs so) ops) <= 1 /\ n_into (run41 (init_sys io rs so) ops) <= 1.
+Proof. exact shutdown_once_all. Qed.
+Print Assumptions shutdown_at_most_once.
+
+(* liveness: once a stop was requested (cell >= Stopping) in a reachable state, every
+   schedule made of 13 segments (13 = the largest value of the measure mu) that each contain
+   a step of the background task and a grant -- in any order, interleaved with any other
+   steps -- ends in a stopped state; and every await_stop future that existed returns exactly
+   that state after two of its own steps.  Every infinite fair schedule has such a prefix. *)
+Theorem await_stop_returns : forall s segs ops i a,
+  reachable s -> 3 <= srank (cell s) ->
+  Forall fair_seg segs -> 13 <= length segs ->
+  let s' := run41 s (concat segs) in
+  stopped (cell s') = true /\
+  (nth_error (aws s) i = Some a -> a_kind a = AStop -> 2 <= count_aw i ops ->
+   exists a', nth_error (aws (run41 s' ops)) i = Some a' /\ a_pc a' = ADone (cell s')).
+Proof. exact await_stop_returns_all. Qed.
+Print Assumptions await_stop_returns.
+
+(* safety of await_stop: a returned value is a stopped state and is the cell's final value *)
+Theorem await_stop_result : forall s i a r, reachable s ->
+  nth_error (aws s) i = Some a -> a_kind a = AStop -> a_pc a = ADone r ->
+  stopped r = true /\ r = cell s.
+Proof. exact awaiter_result_all. Qed.
+Print Assumptions await_stop_result.
+
+(* the finite facts about one step of the background task were checked on the WHOLE control
+   space (6 cell values x 12 program counters x got_panic x permit x 3 x 5 x 3 outcomes) *)
+Theorem background_step_facts : forall c p g pm io ro so, bstep_facts c p g pm io ro so = true.
+Proof. exact bstep_facts_all. Qed.
+Print Assumptions background_step_facts.
+
+(* meaning of the pairwise part of the trace checker evaluated on the implementation *)
+Theorem service_trace_checker_sound : forall a b, pair_okb a b = true <-> pair_spec a b.
+Proof. exact pair_okb_spec. Qed.
+Print Assumptions service_trace_checker_sound.
